@@ -157,6 +157,16 @@ pub trait Kind: 'static {
 }
 
 pub struct KU64;
+pub struct KWide;
+
+/// one word of payload in a 64-byte aligned chunk: the data segment has to absorb the alignment of
+/// its first chunk without losing a chunk
+#[derive(Debug, Clone, Copy, Default, ZeroCopySend)]
+#[repr(C)]
+#[repr(align(64))]
+pub struct Wide {
+    pub v: u64,
+}
 pub struct KSlice;
 
 impl Kind for KU64 {
@@ -199,6 +209,50 @@ impl Kind for KU64 {
         }
     }
     fn receive<S: Service>(s: &Subscriber<S, u64, u64>) -> Result<Option<Sample<S, u64, u64>>, ReceiveError> {
+        s.receive()
+    }
+}
+
+impl Kind for KWide {
+    type P = Wide;
+    fn create_service<S: Service>(b: Builder<Wide, u64, S>) -> Result<PortFactory<S, Wide, u64>, PublishSubscribeCreateError> {
+        b.create()
+    }
+    fn tune_publisher<'a, S: Service>(b: PortFactoryPublisher<'a, S, Wide, u64>) -> PortFactoryPublisher<'a, S, Wide, u64> {
+        b
+    }
+    fn loan<S: Service>(p: &Publisher<S, Wide, u64>, _len: usize) -> Result<SampleMut<S, Wide, u64>, LoanError> {
+        p.loan()
+    }
+    fn write<S: Service>(s: &mut SampleMut<S, Wide, u64>, w: &[u64]) {
+        s.payload_mut().v = w[0];
+    }
+    fn words_mut<S: Service>(s: &SampleMut<S, Wide, u64>) -> Vec<u64> {
+        vec![unsafe { std::ptr::read_volatile(&s.payload().v as *const u64) }]
+    }
+    fn addr_mut<S: Service>(s: &SampleMut<S, Wide, u64>) -> usize {
+        s.payload() as *const Wide as usize
+    }
+    fn words<S: Service>(s: &Sample<S, Wide, u64>) -> Vec<u64> {
+        vec![unsafe { std::ptr::read_volatile(&s.payload().v as *const u64) }]
+    }
+    fn send_copy<S: Service>(p: &Publisher<S, Wide, u64>, w: &[u64], uh: u64, via_loan: bool) -> (Result<usize, SendError>, Option<usize>, u64) {
+        if via_loan {
+            match p.loan_uninit() {
+                Ok(s) => {
+                    let mut s = s.write_payload(Wide { v: w[0] });
+                    *s.user_header_mut() = uh;
+                    let a = s.payload() as *const Wide as usize;
+                    (s.send(), Some(a), uh)
+                }
+                Err(e) => (Err(SendError::LoanError(e)), None, uh),
+            }
+        } else {
+            // the user header of send_copy is the default constructed one
+            (p.send_copy(Wide { v: w[0] }), None, 0)
+        }
+    }
+    fn receive<S: Service>(s: &Subscriber<S, Wide, u64>) -> Result<Option<Sample<S, Wide, u64>>, ReceiveError> {
         s.receive()
     }
 }
